@@ -24,6 +24,17 @@ Theorem heap_inv_insert : forall kf alloc h k v, heap_ok kf h ->
 Proof. exact heap_insert_ok. Qed.
 Print Assumptions heap_inv_insert.
 
+(* a refused growth (allocation failure, invalid capacity) changes NOTHING; a granted one keeps
+   every entry in its slot.  With heap_inv_insert's clause (b = false -> h' = h) this is "a refused
+   insert changes nothing: size, contents, later extraction order". *)
+Theorem heap_growth_refusal_changes_nothing : forall kf alloc h c, heap_ok kf h ->
+  let '(h', ok) := heap_ensure_capacity alloc h c in
+  (ok = false -> h' = h) /\
+  (ok = true -> heap_ok kf h' /\ hsize h' = hsize h /\ (c <= hcap h')%nat /\ contents h' = contents h) /\
+  (alloc = false -> (hcap h < c)%nat -> ok = false).
+Proof. exact heap_ensure_capacity_ok. Qed.
+Print Assumptions heap_growth_refusal_changes_nothing.
+
 (* extract on a non-empty heap: the sift-down loop terminates, returns the root, which
    is a minimum of the contents; the rest is a valid heap holding exactly the other entries *)
 Theorem heap_inv_extract_min : forall kf h, heap_ok kf h -> (1 <= hsize h)%nat ->
